@@ -50,8 +50,11 @@ func init() {
 		mp.add(countPlan, func(w *W, idx int) {
 			withWatchdog(w, idx, fmt.Sprintf("E3:count:round%d", idx), 5*time.Minute, func() { countRound(w, idx) })
 		})
+		mp.add(countPlan, func(w *W, idx int) {
+			withWatchdog(w, idx, fmt.Sprintf("E3:key-takeover:round%d", idx), 5*time.Minute, func() { keyTakeoverRound(w, idx) })
+		})
 		register(&Property{ID: "C06", Level: "exploration",
-			Rule:   "phase 1: every interleaving (exhaustive for the small scenarios named in notes, uniform seeded samples for 'big') of scripted writers at the commit protocol's lock-free yield points; the emitted commits go through the real commit.Channel (cloned) and a real commit.Log file and are replayed in emission order on two replicas; at quiescence dump(primary) == dump(channel replica) == dump(log replica); phase 2: seeded single-writer histories over all column kinds with a stream replica compared after every step; phase 3: directed probes (the recorded finding; a key deleted in one block while another block's row takes it over, forced at commit.betweenColumns); phase 4: parallel stream rounds; phase 5: marker commits of different blocks overlapping (forced from a trigger callback during the column clean-up of a delete, and free-running pairs), Count() of primary and replica against the rows visited; distinct = distinct schedule traces / history hashes; every executed schedule commits at least two transactions (non-trivial)",
+			Rule:   "phase 1: every interleaving (exhaustive for the small scenarios named in notes, uniform seeded samples for 'big') of scripted writers at the commit protocol's lock-free yield points; the emitted commits go through the real commit.Channel (cloned) and a real commit.Log file and are replayed in emission order on two replicas; at quiescence dump(primary) == dump(channel replica) == dump(log replica); phase 2: seeded single-writer histories over all column kinds with a stream replica compared after every step; phase 3: directed probes (the recorded finding; a key deleted in one block while another block's row takes it over, forced at commit.betweenColumns); phase 4: parallel stream rounds; phase 5: marker commits of different blocks overlapping (forced from a trigger callback during the column clean-up of a delete, and free-running pairs), Count() of primary and replica against the rows visited; phase 6: deleters free keys of block-0 rows while takers re-key block-1 rows to them under real parallelism (one deleter and one taker per key), every key compared between primary and stream replica at quiescence; distinct = distinct schedule traces / history hashes; every executed schedule commits at least two transactions (non-trivial)",
 			Assume: concAssume, Plan: mp.Plan, Run: mp.Run, MinEvents: map[string]int64{"schedules_executed": 500, "schedules_with_reordered_commits": 50, "replica_comparisons": 500}})
 	}
 	{
